@@ -14,6 +14,7 @@ import KafkaVerif.Gen.DecoderFacts
 import KafkaVerif.Lemmas.ReaderFront
 import KafkaVerif.Lemmas.ByteLayout
 import KafkaVerif.Lemmas.ReaderRun
+import KafkaVerif.Lemmas.PullReader
 
 namespace KV.C02
 
@@ -200,6 +201,43 @@ theorem single_fetch_bytes (c : TokCfg) (enc : Int → Bytes → Bytes) (hdec : 
   have hc : ¬ ((n : Int) < 0) := by omega
   simp only [responseTokens, containedRecords, hc, if_false, Int.toNat_natCast] at h
   simp only [tokenize_items c enc hdec hpos h1 h2 its hitems n (n + 1) (by omega)]
+  exact ⟨h.1, h.2.1, h.2.2.1⟩
+
+/-! ### the decoder as the Go code is written (Model/PullReader.lean)
+
+`Pull.readAll` follows message_reader.go / batch.go statement by statement: the reader stack, `readHeader`, the loop over
+empty batches in `readMessage`, `readMessageV2` with the payload push, `markRead` / `unwindStack`, `(*Batch).readMessage`
+with its error switch, the skip loop of `(*Batch).ReadMessage`.  The token machine of Model/MessageSetReader.lean is the
+same computation organised by tokens instead of by calls. -/
+
+/-- `pull_eq_run` (v2 streams: batch headers, records, compressed payloads, cut — *any* such stream, well formed or
+not): whenever the token machine does not report a desynchronisation the pull parser returns the same messages, the
+same conn offset and the same outcome.  (For streams with v0/v1 tokens the same statement is evaluated by the oracle on
+every generated case and on random streams — ops `fetch`, `pullfuzz` — but not proved.) -/
+theorem pull_eq_run (e : Bool) (o hwm : Int) (toks : List Tok) (hv : allV2 toks)
+    (hnd : (readAll .fixed e o hwm toks).2.2 ≠ .desync) :
+    Pull.readAll e o hwm toks = readAll .fixed e o hwm toks :=
+  pull_eq_run_v2 e o hwm toks hv hnd
+
+/-- `single_fetch` for the pull parser: on every well-formed layout of v2 batches, any cut, any start offset, the code as
+written delivers exactly the completely contained records at or above the start offset and jumps over no stored record -/
+theorem single_fetch_pull (items : List Item) (hb2 : ∀ it ∈ items, ∃ a b c d e, it = Item.b2 a b c d e) (nb : Int) (hnb : 0 ≤ nb)
+    (hwf : LWF nb items) (o hwm : Int) (ho : 0 ≤ o) (hne : hwm ≠ o) (cut : Int) (expired : Bool) :
+    let res := Pull.readAll expired o hwm (responseTokens items cut)
+    res.1 = (containedRecords items cut).filter (fun r => o ≤ r.1) ∧ res.2.2 ≠ .desync ∧
+    (∀ r ∈ allRecords items, o ≤ r.1 → r.1 < res.2.1 → r ∈ res.1) := by
+  have hsafe : Safe o items := by
+    apply safe_of_v2
+    intro it hit
+    obtain ⟨a, b, c, d, e, rfl⟩ := hb2 it hit
+    rfl
+  have h := single_fetch items nb hnb hwf o hwm ho hsafe hne cut expired
+  have hv : allV2 (responseTokens items cut) := by
+    unfold responseTokens
+    split
+    · exact allV2_tokens items hb2
+    · exact allV2_truncate _ _ (allV2_tokens items hb2)
+  rw [pull_eq_run expired o hwm _ hv h.2.1]
   exact ⟨h.1, h.2.1, h.2.2.1⟩
 
 /-- observation (a), not a finding: *outside* the fetch contract — a response cut inside its first v2 batch — the
